@@ -118,8 +118,12 @@ def run_bounded(b, repo, tier, seed):
 def run(prop, tier='quick', seed=0, repo='/repo', update_lock=False, verbose=False):
     t0 = time.time()
     pid = prop.pid
-    os.makedirs(os.path.join(VERIF, 'evidence'), exist_ok=True)
-    os.makedirs(os.path.join(VERIF, 'replays'), exist_ok=True)
+    # runs against a scratch copy (self-tests, seeded changes) must not overwrite the evidence of /repo
+    scratch = os.path.realpath(repo) != '/repo'
+    ev_dir = os.path.join(VERIF, 'evidence') if not scratch else os.path.join(repo, '.pyvc_evidence')
+    rp_dir = os.path.join(VERIF, 'replays') if not scratch else os.path.join(repo, '.pyvc_replays')
+    os.makedirs(ev_dir, exist_ok=True)
+    os.makedirs(rp_dir, exist_ok=True)
     eng = Engine(repo)
     undecided = []
     crashed = []
@@ -262,7 +266,7 @@ def run(prop, tier='quick', seed=0, repo='/repo', update_lock=False, verbose=Fal
         lines.append('KNOWN-FINDING: property=%s %s' % (pid, hit.get('what', '')))
     replay_paths = []
     for n, (rec, witness, suffix) in enumerate(violations):
-        path = os.path.join(VERIF, 'replays', '%s_%d.json' % (pid, n))
+        path = os.path.join(rp_dir, '%s_%d.json' % (pid, n))
         with open(path, 'w') as fh:
             json.dump({'property': pid, 'obligation': rec['name'], 'function': rec.get('fn'), 'result': rec['result'],
                        'backend': rec.get('backend'), 'solver_output': rec.get('detail'), 'failing_input': witness,
@@ -322,7 +326,7 @@ def run(prop, tier='quick', seed=0, repo='/repo', update_lock=False, verbose=Fal
         coverage['rule'] = '; '.join('%s: %s' % (b['name'], b.get('rule', b.get('bound', ''))) for b in bounded_out)
     ev = {'property_id': pid, 'tier': tier, 'seed': int(seed), 'level': prop.level, 'coverage': coverage,
           'assumptions': assumptions, 'wall_s': round(time.time() - t0, 2), 'violations': len(violations)}
-    with open(os.path.join(VERIF, 'evidence', '%s.json' % pid), 'w') as fh:
+    with open(os.path.join(ev_dir, '%s.json' % pid), 'w') as fh:
         json.dump(ev, fh, indent=1, default=str)
     for ln in lines:
         print(ln)
